@@ -120,6 +120,7 @@ def parseCtxVals (ts : List String) : Option (EnforceCtx × List Val) :=
   match ts with
   | "ctx" :: r :: p :: e :: m :: vs => do
       let vals ← vs.mapM parseVal
+      let r ← decodeTok r; let p ← decodeTok p; let e ← decodeTok e; let m ← decodeTok m
       pure ({ rType := r, pType := p, eType := e, mType := m }, vals)
   | vs => do
       let vals ← vs.mapM parseVal
